@@ -5,7 +5,7 @@ COMMON_ASSUME = [
     "verdict covers only the executions produced by this run (seeded workload), not all inputs/schedules",
 ]
 
-HOOK_COMMITS = []
+HOOK_COMMITS = ["f841dfc"]
 NOT_APPLICABLE = {}
 
 CHECKS = {
@@ -289,5 +289,23 @@ CHECKS = {
         rule="M1 history = (target, algorithm, 2-8 goroutines x 2-10 pre-drawn ops); M2 run = (target, limit, goroutines, hold style); non-trivial = at least "
              "one overlapping operation pair (M1) / grants and refusals both occurred (M2); distinct = distinct (config, op count, overlaps).",
         assumptions=COMMON_ASSUME + ["porcupine v1.3.0; checker timeout 10 s = inconclusive", "logical timestamps come from one atomic counter incremented immediately before the call and immediately after the return"],
+    ),
+    "C17": dict(
+        pkg="c17", race=True, shards=(8, 16), timeout_s=(900, 7200),
+        technique="Go race detector (-race, halt_on_error=0, log to file) over API-level stress of every exported method; reports filtered to library frames and de-duplicated by access-site pair; runtime fatals (concurrent map access) caught from the child's output",
+        level_text="One stress scenario per type family (8 limits incl. wrappers, 4 strategies with their partitions and dynamic add/remove, default / "
+                   "blocking / deadline / queue limiters and their listeners, pools, 7 measurement primitives, both metric registries with 200us polling, "
+                   "and an integrated limiter+limit+registry): 4-16 goroutines call every exported method (accessors, String, SetLimit, NotifyOnChange, "
+                   "Register*, Start/Stop, ...) of one shared instance in PRNG mixes under the race detector; each scenario is repeated (quick 5x, "
+                   "thorough 2000x) because races are schedule dependent; verif yield points are on in half of the runs. A report counts only if a frame "
+                   "lies in the library; each distinct pair of innermost library functions is one violation signature. Exploration: it shows absence of "
+                   "races only on the interleavings and paths exercised (per-method call counts are in the evidence).",
+        require=["scenario_runs/limit.Vegas", "scenario_runs/strategy.Predicate", "scenario_runs/limiter.Queue", "scenario_runs/registry.gometrics",
+                 "scenario_runs/registry.datadog", "scenario_runs/measurements.WindowlessMovingPercentile", "scenario_runs/pool",
+                 "calls/strategy.Predicate/Partition.String", "calls/registry.gometrics/RegisterDistribution+AddSample", "calls/limit.Settable/SetLimit"],
+        rule="run = (scenario, 4-16 goroutines, 300-800 ops per goroutine, yield hooks on/off); every run is non-trivial; distinct = distinct (scenario, "
+             "goroutines, iterations, hooks, repetition index).",
+        assumptions=COMMON_ASSUME + ["LookupPartition/PredicatePartition Acquire/Release are documented as not to be used directly and are exercised only through the strategies",
+                                     "the race detector reports only races that actually occur on the executed interleavings"],
     ),
 }
